@@ -803,6 +803,21 @@ Definition c02_swept (t : trans) : bool :=
    clearing price (the whole reservation when nothing is allocated) - the batch clause of C04 *)
 Definition c02_all (t : trans) : bool := c02_ok t && c02_swept t && c04_batch t.
 
+(* C04, fixed price auctions at settlement: what a bidder paid for at the acceptance of each bid (c04_fixed) is what
+   is delivered - the sum of the quantities of the bidder's bids, nothing clamped or scaled down afterwards *)
+Definition c04_delivered (t : trans) : bool :=
+  forallb (fun p =>
+    let a := fst p in
+    match a_type a with
+    | Batch => true
+    | FixedPrice =>
+        forallb (fun u =>
+          received t (a_id a) (a_sell_denom a) u
+          =? sumZ (map (sell_amount (a_pay_denom a)) (filter (fun b => N.eqb (b_bidder b) u) (bids_of (t_pre t) (a_id a)))))
+          (filter (fun u => negb (N.eqb u (a_auctioneer a))) users)
+    end) (settling t).
+Definition c04_all (t : trans) : bool := c04_ok t && c04_delivered t.
+
 (* C05, "the maximum bid amount the allow-list granted": after an accepted allow-list operation the stored maximum
    of every account it names is the one granted last (a later entry for the same account overrides an earlier one) *)
 Definition granted (l : list (N * addr_str * option Z)) (u : N) : option Z :=
@@ -824,6 +839,20 @@ Definition c05_grants (t : trans) : bool :=
   end.
 Definition c05_all (t : trans) : bool := c05_ok t && c05_grants t.
 
+(* C09, liveness of the payment: "in the first block at or after its release time".  A block that fails without an
+   injected fault and without a vetoing listener while an instalment is due leaves that instalment unpaid in the
+   first block at or after its release time (and in every later one: the chain has halted) *)
+Definition c09_live (t : trans) : bool :=
+  match t_op t, t_class t with
+  | OBlock tm _, KBlockErr | OBlock tm _, KPanic =>
+      negb (no_veto (t_pre t) H_BeforeAllocated)
+      || forallb (fun a => negb (status_eqb (a_status a) VestingS)
+                           || forallb (fun v => negb ((v_time v <=? tm) && negb (v_released v))) (vqs_of (t_pre t) (a_id a)))
+                 (st_auctions (t_pre t))
+  | _, _ => true
+  end.
+Definition c09_all (t : trans) : bool := c09_ok t && c09_live t.
+
 (* C08, state level: an auction is in the vesting status only while its last instalment is unreleased
    ("finishes when its last vesting instalment is released") *)
 Definition pending_ok (s : state) : bool :=
@@ -834,8 +863,8 @@ Definition c08_all (t : trans) : bool := c08_ok t && pending_ok (t_post t).
 
 (* ---------------------------------------------------------------- all of them *)
 Definition all_checks : list (N * (trans -> bool)) :=
-  [(1%N, c01_all); (2%N, c02_all); (3%N, c03_ok); (4%N, c04_ok); (5%N, c05_all); (6%N, c06_ok); (7%N, c07_ok);
-   (8%N, c08_all); (9%N, c09_ok); (10%N, c10_ok); (11%N, c11_ok); (12%N, c12_ok); (13%N, c13_ok);
+  [(1%N, c01_all); (2%N, c02_all); (3%N, c03_ok); (4%N, c04_all); (5%N, c05_all); (6%N, c06_ok); (7%N, c07_ok);
+   (8%N, c08_all); (9%N, c09_all); (10%N, c10_ok); (11%N, c11_ok); (12%N, c12_ok); (13%N, c13_ok);
    (15%N, c15_ok); (16%N, c16_ok); (17%N, c17_ok); (18%N, c18_ok); (19%N, c19_ok)].
 Definition failing (t : trans) : list N :=
   map fst (filter (fun c => negb (snd c t)) all_checks).
